@@ -22,7 +22,7 @@ var (
 	h2cDstLens = []int{1, 2, 15, 16, 17, 31, 32, 33, 49, 63, 64, 65, 127, 128, 200, 253, 254, 255, 256, 257, 258, 300, 511, 512, 1000}
 	// DST lengths at which a length kept in 16 (or 8) bits wraps
 	h2cHugeDstLens = []int{65535, 65536, 65537, 65551, 65791, 65792, 131072, 131088, 196863}
-	h2cLayouts = []string{"exact", "spare1", "spare8", "spare64", "interior"}
+	h2cLayouts = []string{"exact", "spare1", "spare8", "spare64", "interior", "overlap"}
 )
 
 type h2cCase struct {
@@ -54,6 +54,8 @@ func layoutSlice(content []byte, layout string, fill byte) (s []byte, backing []
 	pre, spare := 0, 0
 
 	switch layout {
+	case "overlap":
+		spare = 8
 	case "spare1":
 		spare = 1
 	case "spare8":
@@ -187,6 +189,19 @@ func h2cGenerate(c *mon.Ctx, fns []string, nq, nt int) {
 
 // h2cInputs materialises the case's slices.
 func h2cInputs(cs *h2cCase, fill byte) (msg, dst, msgBack, dstBack []byte) {
+	if cs.Layout == "overlap" && !cs.NilMsg && !cs.NilDst {
+		// message and DST are overlapping windows of ONE caller buffer: dst = buf[:d], msg = buf[d/2 : d/2+m]
+		d, m := mon.UnH(cs.Dst), mon.UnH(cs.Msg)
+		buf := make([]byte, len(d)+len(m)+32)
+		copy(buf, d)
+		// the message content is whatever the window shows (its first bytes are the DST's tail)
+		copy(buf[len(d):], m)
+		dst = buf[:len(d)]
+		msg = buf[len(d)/2 : len(d)/2+len(m)]
+
+		return msg, dst, buf, buf
+	}
+
 	if !cs.NilMsg {
 		msg, msgBack = layoutSlice(mon.UnH(cs.Msg), cs.Layout, fill)
 	}
